@@ -157,6 +157,75 @@ func binaryCmps(rel, fn string) []string {
 	return res
 }
 
+func methodDecl(rel, recv, name string) *ast.FuncDecl {
+	for _, d := range load(rel).f.Decls {
+		fd, ok := d.(*ast.FuncDecl)
+		if !ok || fd.Name.Name != name || fd.Recv == nil || len(fd.Recv.List) == 0 {
+			continue
+		}
+		t := fd.Recv.List[0].Type
+		if s, ok := t.(*ast.StarExpr); ok {
+			t = s.X
+		}
+		if ix, ok := t.(*ast.IndexExpr); ok {
+			t = ix.X
+		}
+		if id, ok := t.(*ast.Ident); ok && id.Name == recv {
+			return fd
+		}
+	}
+	fail("%s: method %s.%s not found", rel, recv, name)
+	return nil
+}
+
+// methodCalls: names of selector calls (a.b.C) inside a method, source order
+func methodCalls(rel, recv, name string) []string {
+	var res []string
+	ast.Inspect(methodDecl(rel, recv, name).Body, func(n ast.Node) bool {
+		if c, ok := n.(*ast.CallExpr); ok {
+			if s := calleeName(c.Fun); strings.Contains(s, ".") {
+				res = append(res, s)
+			}
+		}
+		return true
+	})
+	return res
+}
+
+func exprString(e ast.Expr) string {
+	switch v := e.(type) {
+	case *ast.Ident:
+		return v.Name
+	case *ast.SelectorExpr:
+		return exprString(v.X) + "." + v.Sel.Name
+	case *ast.CallExpr:
+		a := make([]string, len(v.Args))
+		for i, x := range v.Args {
+			a[i] = exprString(x)
+		}
+		return exprString(v.Fun) + "(" + strings.Join(a, ",") + ")"
+	case *ast.BasicLit:
+		return v.Value
+	case *ast.BinaryExpr:
+		return exprString(v.X) + v.Op.String() + exprString(v.Y)
+	}
+	return "?"
+}
+
+// methodAssigns: "lhs=rhs" of every assignment inside a method whose lhs is a selector
+func methodAssigns(rel, recv, name string) []string {
+	var res []string
+	ast.Inspect(methodDecl(rel, recv, name).Body, func(n ast.Node) bool {
+		if a, ok := n.(*ast.AssignStmt); ok && a.Tok == token.ASSIGN && len(a.Lhs) == 1 {
+			if _, ok := a.Lhs[0].(*ast.SelectorExpr); ok {
+				res = append(res, exprString(a.Lhs[0])+"="+exprString(a.Rhs[0]))
+			}
+		}
+		return true
+	})
+	return res
+}
+
 type fact struct{ name, typ, val, doc string }
 
 var facts []fact
